@@ -92,6 +92,11 @@ chk("C04", "MIR assert inventory (no overflow/div assert on signed ints reachabl
     "Trusted: rustc MIR (overflow checks on), syn parse, Rust's wrapping_*/checked_* semantics.",
     "DESIGN.md section 4 C04")
 
+chk("C06", "abstract simulation of MIR under fixed enum discriminants: owes-table of eval_expr (blocks popped per (variant, state)) vs blocks popped by eval_break/eval_continue per discarded or re-scheduled entry (conservation), stop-only-at-running-loop",
+    "The push/pop discipline of binding blocks is decided for every (Expression_ variant, state) entry and every path of the unwinding code: what an entry's own arm would pop is exactly what break/continue pop when they remove it, they stop only at the loop whose body runs, and return drops the whole frame. That discipline is what makes a block's variables invisible after any exit.",
+    "Trusted: rustc MIR; the abstraction that an entry in a state that pops a block exists only while that block is pushed. Name-resolution results are not computed.",
+    "DESIGN.md section 4 C06")
+
 ENGINES = [
  {"name": "gfacts", "path": "tools/gfacts", "kind_free_text": "rustc_private driver (nightly) dumping the type-checked MIR (CFG, resolved callees, asserts, places with field names) of every function of the garden crate as JSON; run as RUSTC_WORKSPACE_WRAPPER under cargo +nightly check on /repo's current tree"},
  {"name": "gshape", "path": "tools/gshape", "kind_free_text": "syn-2 syntax tree dumper (match arms, patterns, literals, struct initialisers) for table/shape rules"},
